@@ -1298,6 +1298,10 @@ extern "C" {
             break;
           }
           case dr_dag_node_kind_other: 
+            /* the edge to the next interval of the task */
+            if (x->next) {
+              s->info.logical_edge_counts[dr_dag_edge_kind_other_cont]++;
+            }
             break;
           case dr_dag_node_kind_section:
             if (x->next) {
